@@ -53,6 +53,27 @@ def rebaseline(units):
         print('unit %s: %d obligations, %d discharged, %d failing: %s' % (u, len(r.obligations), len(d), len(r.failed), sorted(r.failed)))
 
 
+def _links(pid):
+    try:
+        from . import link as LK
+        rep, errs = LK.report_for([pid])
+        out = {'rule': 'a contract-only stub of T::f is LINKED when another registered unit verifies the real body of T::f and '
+                       '(same parameter names) every requires clause of the proved contract is demanded by the stub, every ensures '
+                       'clause of the stub is among the proved ones, and every spec function they mention has the same definition text '
+                       'in both generated files; anything else stays an assumption of the unit that declares the stub',
+               'linked': [], 'partly_linked': [], 'assumed_although_body_is_verified_elsewhere': [], 'not_analysed': errs}
+        for r in rep:
+            e = {'unit': r['unit'], 'fn': r['fn'], 'proved_in': r['proved_in'], 'ensures_linked': len(r['linked_ensures']),
+                 'ensures_assumed_only': r['unlinked_ensures'][:12], 'real_requires_not_demanded': r['missing_requires'][:8],
+                 'spec_definitions_differ': r['def_mismatch'][:8], 'params_differ': r['param_mismatch']}
+            key = {'linked': 'linked', 'partly linked': 'partly_linked'}.get(r['status'], 'assumed_although_body_is_verified_elsewhere')
+            out[key].append(e)
+        out['counts'] = {k: len(out[k]) for k in ('linked', 'partly_linked', 'assumed_although_body_is_verified_elsewhere')}
+        return out
+    except Exception as e:      # never let the report disturb a verdict
+        return {'error': str(e)[:300]}
+
+
 def check_property(pid, tier='quick', seed=0, replay_only=None):
     t0 = time.time()
     reg = registry()
@@ -63,10 +84,15 @@ def check_property(pid, tier='quick', seed=0, replay_only=None):
     units = entry['units']
     kani_units = entry.get('kani', [])
     results = {}
-    with cf.ThreadPoolExecutor(max_workers=4) as ex:
+    with cf.ThreadPoolExecutor(max_workers=5) as ex:
+        # cross-unit contract links (engine/link.py): which contract-only stubs of this property's units are discharged,
+        # clause by clause, by the contract another unit PROVES for the same real function.  Informational: it sorts the
+        # trusted base, it never changes a verdict.
+        link_fut = ex.submit(_links, pid)
         futs = {u: ex.submit(R.run_unit, u, tier, seed) for u in units}
         for u, f in futs.items():
             results[u] = f.result()
+        links = link_fut.result()
     kf = [k for k in known_findings() if k['property'] == pid and k.get('status') == 'open']
     kf_ids = {k['obligation']: k for k in kf}
 
@@ -379,6 +405,7 @@ def check_property(pid, tier='quick', seed=0, replay_only=None):
             'undecided': undecided + never_proved + internal_only + unstable,
             'stability': {u: getattr(r, 'stability', None) for u, r in results.items()},
             'cvc5_cross_check': {u: getattr(r, 'cvc5', None) for u, r in results.items()},
+            'callee_contract_links': links,
             'not_reached': entry.get('not_reached', ''),
             'exhaustive': False,
         },
